@@ -95,6 +95,8 @@ pub const MENU_T: &[&str] = &[
     "PULSE 0 \"b\" wf",
     "NONBLOCKING PULSE 0 \"a\" wf",
     "NONBLOCKING PULSE 1 \"a\" erf_square(duration: 1.0, pad_left: 0.5, pad_right: 0.25, risetime: 0.1)",
+    "NONBLOCKING PULSE 1 \"a\" erf_square(duration: 1.0, pad_left: 0.5, risetime: 0.1)",
+    "PULSE 0 \"a\" erf_square(duration: 1.0, pad_right: 0.25, risetime: 0.1)",
     "PULSE 2 \"z\" flat(duration: 1.0, iq: 1)",
 ];
 pub const TERMS: &[&str] = &["", "JUMP-WHEN @l ro", "HALT"];
@@ -1191,7 +1193,7 @@ pub static C25: PropDef = PropDef {
     id: "C25",
     level: "model_checking",
     engine: "sweep",
-    rule: "(A) every sequence of length <= 4 (thorough 6) over an 18-instruction timed menu (known durations: template waveforms, erf_square with pads, one DEFWAVEFORM played on two frames with different SAMPLE-RATEs, DELAY, RAW-CAPTURE, zero-length updates) and of length <= 2 (3) over the 28-instruction general menu, scheduled in seconds by the real code and compared with the reference ASAP schedule: every timed instruction exactly once, documented duration, start = latest end of its timed predecessors, no overlap between instructions where one uses a frame the other uses or blocks, duration = latest end; (B) programs = 2 calibrations (7 x 8 x 2 bodies) x 2-3 invocations, block schedule vs schedule of the expanded program through the source map. non-trivial = program whose schedule was computed",
+    rule: "(A) every sequence of length <= 4 (thorough 6) over a 20-instruction timed menu (known durations: template waveforms, erf_square with both pads / only a left pad / only a right pad, one DEFWAVEFORM played on two frames with different SAMPLE-RATEs, DELAY, RAW-CAPTURE, zero-length updates) and of length <= 2 (3) over the 28-instruction general menu, scheduled in seconds by the real code and compared with the reference ASAP schedule: every timed instruction exactly once, documented duration, start = latest end of its timed predecessors, no overlap between instructions where one uses a frame the other uses or blocks, duration = latest end; (B) programs = 2 calibrations (7 x 8 x 2 bodies) x 2-3 invocations, block schedule vs schedule of the expanded program through the source map. non-trivial = program whose schedule was computed",
     assumptions: ASSUME,
     run: |ctx| {
         ctx.bound("menu_timed", json!(MENU_T));
